@@ -106,11 +106,30 @@ type verifRegistry struct {
 	manifests map[string]map[string][]byte // repo -> tag|digest -> manifest
 	failBlob  map[string]bool              // repo + "@" + digest -> answer 503
 	failMf    map[string]bool              // repo -> manifests answer 503
+	gates     map[string]chan struct{}     // repo + "@" + digest -> blob requests wait until closed
+	arrived   chan string                  // a gated request has arrived
 	hits      int64
 }
 
 func (g *verifRegistry) RoundTrip(req *http.Request) (*http.Response, error) {
 	atomic.AddInt64(&g.hits, 1)
+	if i := strings.LastIndex(req.URL.Path, "/blobs/"); i >= 0 && strings.HasPrefix(req.URL.Path, "/v2/") {
+		key := strings.TrimPrefix(req.URL.Path[:i], "/v2/") + "@" + req.URL.Path[i+len("/blobs/"):]
+		g.mu.Lock()
+		gate := g.gates[key]
+		g.mu.Unlock()
+		if gate != nil { // the registry is slow, not broken
+			select {
+			case g.arrived <- key:
+			default:
+			}
+			<-gate
+		}
+	}
+	// like net/http: a request whose context is done fails with the context's error
+	if err := req.Context().Err(); err != nil {
+		return nil, err
+	}
 	rec := httptest.NewRecorder()
 	g.serve(rec, req)
 	res := rec.Result()
@@ -241,6 +260,8 @@ type verifH struct {
 	held        map[verifKey]*verifLayer // (ref, toc) -> instance that is in use
 	tainted     map[verifKey]bool        // (ref, blob) -> a resolution error may be memoised for it
 	relZero     map[verifKey]bool        // (ref, toc) was released down to zero before
+	cancelled   map[verifKey]bool        // (ref, blob) -> was being resolved when a client abandoned its lookup
+	cancelMode  string                   // "", "pre", "mid": how the next lookup's context is cancelled
 	hist        []string
 	reportKnown bool
 }
@@ -270,7 +291,8 @@ func verifNewH(t *testing.T) *verifH {
 	}
 	h.work = d
 	h.reg = &verifRegistry{blobs: map[string][]byte{}, manifests: map[string]map[string][]byte{},
-		failBlob: map[string]bool{}, failMf: map[string]bool{}}
+		failBlob: map[string]bool{}, failMf: map[string]bool{}, gates: map[string]chan struct{}{},
+		arrived: make(chan string, 64)}
 	// blobs 0..3 eStargz, blob 4 plain tar.gz (can never be resolved as a lazy layer)
 	for i := 0; i < 4; i++ {
 		b, err := verifBuildEsgz([][2]string{
@@ -390,6 +412,7 @@ func (h *verifH) reset() {
 	h.held = map[verifKey]*verifLayer{}
 	h.tainted = map[verifKey]bool{}
 	h.relZero = map[verifKey]bool{}
+	h.cancelled = map[verifKey]bool{}
 	h.hist = nil
 	h.reg.mu.Lock()
 	h.reg.failBlob = map[string]bool{}
@@ -471,15 +494,24 @@ func (h *verifH) onDisk(ref int) bool {
 // other layers keep resolving -- or have not even been scheduled yet and would resolve a layer that
 // a later release dropped.  A worker that found the layer after somebody else delivered it stays
 // parked for ever in `resultChan <- gotL`; that one is finished as far as the state is concerned.
-func verifBusyWorkers() int {
-	buf := make([]byte, 1<<20)
+func verifBusyWorkers() int { return verifBusyWorkersExcept() }
+
+// verifStackBuf is reused by every stack dump (the harness polls from one goroutine only).
+var verifStackBuf []byte
+
+// verifBusyWorkersExcept does not count workers whose stack mentions one of the given strings.
+func verifBusyWorkersExcept(except ...string) int {
+	if verifStackBuf == nil {
+		verifStackBuf = make([]byte, 1<<20)
+	}
+	var buf []byte
 	for {
-		n := runtime.Stack(buf, true)
-		if n < len(buf) {
-			buf = buf[:n]
+		n := runtime.Stack(verifStackBuf, true)
+		if n < len(verifStackBuf) {
+			buf = verifStackBuf[:n]
 			break
 		}
-		buf = make([]byte, 2*len(buf))
+		verifStackBuf = make([]byte, 2*len(verifStackBuf))
 	}
 	busy := 0
 	for _, g := range bytes.Split(buf, []byte("\n\n")) {
@@ -497,8 +529,17 @@ func verifBusyWorkers() int {
 		if bytes.Contains(g, []byte("sync.(*WaitGroup).Wait")) {
 			continue // the goroutine that closes allDone
 		}
-		if bytes.Contains(g, []byte("verifBusyWorkers")) || bytes.Contains(g, []byte("testing.tRunner")) {
+		if bytes.Contains(g, []byte("verifBusyWorkers")) || bytes.Contains(g, []byte("testing.tRunner")) || bytes.Contains(g, []byte("(*verifH)")) {
 			continue // the harness itself
+		}
+		skip := false
+		for _, e := range except {
+			if bytes.Contains(g, []byte(e)) {
+				skip = true
+			}
+		}
+		if skip {
+			continue
 		}
 		busy++
 	}
@@ -656,7 +697,20 @@ func (h *verifH) lookup(ref, toc int, via string) {
 		errno syscall.Errno
 		opl   string
 	)
-	if via == verifViaAPI {
+	cancel := h.cancelMode
+	h.cancelMode = ""
+	if via == verifViaAPI && cancel == "pre" {
+		// the client is gone before the call: its context cannot fetch the manifest any more
+		// (the layers are resolved on context.Background() and do not care)
+		mf, mfi = false, 0
+		cctx, cf := context.WithCancel(ctx)
+		cf()
+		opl = fmt.Sprintf("clookup %d %d %d %s", ref, toc, mfi, bits)
+		got, err = h.lm.getLayer(cctx, im.ref, d)
+	} else if via == verifViaAPI && cancel == "mid" {
+		opl = fmt.Sprintf("clookup %d %d %d %s", ref, toc, mfi, bits)
+		got, err = h.lookupAbandoned(ref, toc)
+	} else if via == verifViaAPI {
 		opl = fmt.Sprintf("lookup %d %d %d %s", ref, toc, mfi, bits)
 		got, err = h.lm.getLayer(ctx, im.ref, d)
 	} else {
@@ -692,6 +746,11 @@ func (h *verifH) lookup(ref, toc int, via string) {
 		for _, bi := range failing {
 			h.tainted[verifKey{ref, bi}] = true
 		}
+		if cancel != "" {
+			for _, bi := range im.layers {
+				h.cancelled[verifKey{ref, bi}] = true
+			}
+		}
 	}
 	h.scanWrap(ref)
 	var w *verifLayer
@@ -703,7 +762,11 @@ func (h *verifH) lookup(ref, toc int, via string) {
 		}
 	}
 	res := "err"
-	if via == verifViaAPI {
+	if cancel != "" {
+		// what an abandoned lookup returns is not part of the property; the state it leaves is
+		res = "done"
+		h.out.Count("lookup-abandoned-" + cancel)
+	} else if via == verifViaAPI {
 		if w != nil {
 			res = fmt.Sprintf("ok %d", w.id)
 		} else if err == nil {
@@ -728,10 +791,14 @@ func (h *verifH) lookup(ref, toc int, via string) {
 	switch {
 	case ok && !exists:
 		h.fail("lookup-unknown-succeeded", fmt.Sprintf("lookup(%d,%d) succeeded but the image has no layer with that TOC digest", ref, toc))
+	case !ok && exists && cancel != "":
+		h.out.Count("abandoned-lookup-failed")
 	case !ok && exists:
 		healthy := manifestAvail && (cachedBefore || !h.blobFails(ref, mb))
 		if healthy && !h.tainted[verifKey{ref, mb}] {
-			if h.relZero[key] {
+			if h.cancelled[verifKey{ref, mb}] {
+				h.fail("lookup-failed-after-cancelled-lookup", fmt.Sprintf("lookup(%d,%d) failed after an earlier lookup on this image was abandoned by its client; the registry is healthy and never failed for blob %d", ref, toc, mb))
+			} else if h.relZero[key] {
 				h.fail("lookup-after-release-failed", fmt.Sprintf("lookup(%d,%d) failed after the layer had been released to zero; registry healthy", ref, toc))
 			} else {
 				h.fail("lookup-existing-failed", fmt.Sprintf("lookup(%d,%d) failed although the image contains the layer and the registry is healthy", ref, toc))
@@ -765,8 +832,98 @@ func (h *verifH) lookup(ref, toc int, via string) {
 		if exists && h.relZero[key] {
 			h.out.Count("lookup-after-release-ok")
 		}
+		if exists && cancel == "" {
+			if h.cancelled[verifKey{ref, mb}] {
+				h.out.Count("lookup-after-cancelled-ok")
+			}
+			delete(h.cancelled, verifKey{ref, mb})
+		}
 	}
 	h.afterOp()
+}
+
+// lookupAbandoned: getLayer with a context that the client cancels while the registry is still
+// working on the first request for one layer of the image (the wanted one if possible) and every
+// other layer has been dealt with; then the registry answers.
+func (h *verifH) lookupAbandoned(ref, toc int) (layer.Layer, error) {
+	im := h.images[ref]
+	d := h.tocs[toc]
+	gated := -1
+	if mb := h.memberBlob(ref, toc); mb >= 0 && !h.blobFails(ref, mb) && h.cached(ref, mb) == nil {
+		gated = mb
+	} else {
+		for _, bi := range im.layers {
+			if h.blobs[bi].esgz && !h.blobFails(ref, bi) && h.cached(ref, bi) == nil {
+				gated = bi
+				break
+			}
+		}
+	}
+	ctx, cf := context.WithCancel(context.Background())
+	defer cf()
+	if gated < 0 {
+		l, err := h.lm.getLayer(ctx, im.ref, d)
+		return l, err
+	}
+	key := im.repo + "@" + h.blobs[gated].dgst.String()
+	gate := make(chan struct{})
+	h.reg.mu.Lock()
+	h.reg.gates[key] = gate
+	h.reg.mu.Unlock()
+	for len(h.reg.arrived) > 0 {
+		<-h.reg.arrived
+	}
+	type res struct {
+		l   layer.Layer
+		err error
+	}
+	done := make(chan res, 1)
+	go func() {
+		l, err := h.lm.getLayer(ctx, im.ref, d)
+		done <- res{l, err}
+	}()
+	var r res
+	returned := false
+	select {
+	case <-h.reg.arrived:
+		h.out.Count("lookup-abandoned-in-flight")
+		// only the gated resolution may be in flight when the client goes away
+		// (the worker waiting at the gate, and a worker of the same blob waiting for it on the
+		// per-layer lock, do not count)
+		for deadline := time.Now().Add(10 * time.Second); verifBusyWorkersExcept("verifRegistry).RoundTrip", "namedmutex") > 0; {
+			if time.Now().After(deadline) {
+				h.out.Count("abandon-wait-timeout")
+				if os.Getenv("VERIF_C16_DEBUG") != "" {
+					n := runtime.Stack(verifStackBuf, true)
+					for _, g := range bytes.Split(verifStackBuf[:n], []byte("\n\n")) {
+						if (bytes.Contains(g, []byte("getLayer")) || bytes.Contains(g, []byte("WaitGroup).Go"))) && !bytes.Contains(g, []byte("[chan send")) && !bytes.Contains(g, []byte("WaitGroup).Wait")) && !bytes.Contains(g, []byte("namedmutex")) && !bytes.Contains(g, []byte("verifRegistry).RoundTrip")) {
+							fmt.Fprintf(os.Stderr, "BUSY:\n%s\n\n", g)
+						}
+					}
+				}
+				break
+			}
+			time.Sleep(200 * time.Microsecond)
+		}
+	case r = <-done: // nothing was requested for that blob (resolve status already there)
+		returned = true
+	case <-time.After(20 * time.Second):
+		h.fail("abandoned-lookup-stuck", fmt.Sprintf("lookup(%d,%d): no request for blob %d and no return within 20s", ref, toc, gated))
+	}
+	cf()
+	h.reg.mu.Lock()
+	delete(h.reg.gates, key)
+	h.reg.mu.Unlock()
+	close(gate)
+	if !returned {
+		select {
+		case r = <-done:
+		case <-time.After(40 * time.Second):
+			h.fail("abandoned-lookup-stuck", fmt.Sprintf("lookup(%d,%d) did not return within 40s after its context was cancelled", ref, toc))
+			return nil, fmt.Errorf("stuck")
+		}
+	}
+	return r.l, r.err
 }
 
 func (h *verifH) info(ref, toc int, viaNode bool) {
@@ -1156,6 +1313,12 @@ func (h *verifH) do(s verifStep) {
 	switch s.op {
 	case "lookup":
 		h.lookup(s.ref, s.x, verifViaAPI)
+	case "cancel-pre":
+		h.cancelMode = "pre"
+		h.lookup(s.ref, s.x, verifViaAPI)
+	case "cancel-mid":
+		h.cancelMode = "mid"
+		h.lookup(s.ref, s.x, verifViaAPI)
 	case "nlookup-diff":
 		h.lookup(s.ref, s.x, verifViaDiff)
 	case "nlookup-blob":
@@ -1235,6 +1398,16 @@ func (h *verifH) handWritten() {
 	h.play("foreign-error-arrives-first", []verifStep{
 		{"lookup", B, 3}, {"use", B, 3}, {"use", B, 1}, {"release", B, 3}, {"lookup", B, 3}, {"use", B, 3},
 		{"release", B, 1}, {"lookup", B, 1}, {"release", B, 3}, {"lookup", B, 3}, {"lookup", B, 1}})
+	// the client abandons its lookup (FUSE INTERRUPT) while the registry is still answering the first
+	// request for the wanted layer and its siblings are done; the registry never fails: nothing may
+	// be memoised and fresh lookups must succeed
+	h.play("lookup-abandoned-in-flight", []verifStep{
+		{"info", A, 1}, {"cancel-mid", A, 1}, {"lookup", A, 1}, {"lookup", A, 0}, {"lookup", A, 2},
+		{"use", A, 1}, {"release", A, 1}, {"cancel-mid", A, 1}, {"lookup", A, 1},
+		{"cancel-mid", B, 3}, {"lookup", B, 3}, {"lookup", B, 1}, {"cancel-mid", C, 100}, {"lookup", C, 3}})
+	h.play("lookup-abandoned-before-manifest", []verifStep{
+		{"cancel-pre", A, 0}, {"lookup", A, 0}, {"use", A, 0}, {"release", A, 0}, {"cancel-pre", A, 0}, {"lookup", A, 0},
+		{"cancel-pre", C, 3}, {"cancel-mid", C, 3}, {"lookup", C, 3}})
 	h.play("node-handlers", []verifStep{
 		{"nlookup-info", A, 0}, {"nlookup-diff", A, 0}, {"nuse", A, 0}, {"nlookup-blob", A, 0}, {"nlookup-info", A, 0},
 		{"nrelease", A, 0}, {"nlookup-diff", A, 0}, {"nrelease", A, 0}, {"nlookup-diff", A, 100}, {"nlookup-blob", N, 0},
@@ -1300,6 +1473,16 @@ func (h *verifH) randomHistory(k int) {
 			via := verifViaAPI
 			if node {
 				via = []string{verifViaDiff, verifViaBlob}[rnd.Intn(2)]
+			}
+			if via == verifViaAPI {
+				switch rnd.Pick(80, 14, 6) {
+				case 1:
+					h.cancelMode = "mid"
+					shape += "c"
+				case 2:
+					h.cancelMode = "pre"
+					shape += "p"
+				}
 			}
 			h.lookup(key.ref, key.x, via)
 			shape += "l"
